@@ -253,6 +253,7 @@ func scenarioB(name string, cf cfg, lens [2][]int) sched.Scenario {
 			l.Acked[h.ID] = rec
 		}
 		res := make([]string, 2)
+		vsched.Focus()
 		for w := 0; w < 2; w++ {
 			w := w
 			vsched.Spawn(func() {
